@@ -436,6 +436,40 @@ theorem wildcard_guard_counterexample :
     inMode .lax (anyAttrReachedWith reportsMissingStrictOnly .lax .strict true false .notFound 0 1 2) = [] := by
   decide
 
+/-! ### scoped copies of the context -/
+
+mutual
+theorem scopes_shared_lax_eq_reached (r : Run) (h : r.allShared = true) : r.lax = r.reached := by
+  match r with
+  | .err e => simp [Run.lax, Run.reached]
+  | .scope shared body =>
+    simp only [Run.allShared, Bool.and_eq_true] at h
+    simp [Run.lax, Run.reached, h.1, scopes_shared_laxL_eq_reachedL body h.2]
+theorem scopes_shared_laxL_eq_reachedL (rs : List Run) (h : Run.allSharedL rs = true) :
+    Run.laxL rs = Run.reachedL rs := by
+  match rs with
+  | [] => simp [Run.laxL, Run.reachedL]
+  | r :: k =>
+    simp only [Run.allSharedL, Bool.and_eq_true] at h
+    simp [Run.laxL, Run.reachedL, scopes_shared_lax_eq_reached r h.1, scopes_shared_laxL_eq_reachedL k h.2]
+end
+
+/-- when every scoped copy shares the error list, lax mode collects exactly the events the descent
+    reaches: a strict run raises (the first reached event) exactly when the lax list is not empty, and
+    it raises precisely the first error that lax collects — for every nesting of scopes. -/
+theorem scopes_shared_strict_raises_first_lax (rs : List Run) (h : Run.allSharedL rs = true) :
+    (Run.reachedL rs).head? = (Run.laxL rs).head? ∧ (Run.reachedL rs = [] ↔ Run.laxL rs = []) := by
+  rw [scopes_shared_laxL_eq_reachedL rs h]; exact ⟨rfl, Iff.rfl⟩
+
+example : Run.allSharedL [.err 1, .scope true [.err 2, .scope true [.err 3]], .err 4] = true ∧
+    Run.laxL [.err 1, .scope true [.err 2, .scope true [.err 3]], .err 4] = [1, 2, 3, 4] := by decide
+
+/-- with a copy that does not share the list (`errors.copy()`, finding C04-F5) the error below the
+    scope is reached — validate() raises it — and lax mode reports nothing.  Witness:
+    `<top lang="en"><a>1</a><a>x</a></top>`, `lang` inheritable; replayed by the harness. -/
+theorem unshared_scope_counterexample :
+    Run.reachedL [.scope false [.err 7]] = [7] ∧ Run.laxL [.scope false [.err 7]] = [] := by decide
+
 /-! ### value constraints and the document-level state (Model/AttrDefaults.lean)
 
   `verdicts_agree` needs `events sv = events sd`.  The part of the descent where that equality could
